@@ -55,6 +55,9 @@ fn install() {
                 let (file, line) = info.location().map(|l| (l.file().to_string(), l.line())).unwrap_or_default();
                 let message = if let Some(s) = info.payload().downcast_ref::<&str>() { s.to_string() }
                     else if let Some(s) = info.payload().downcast_ref::<String>() { s.clone() } else { "<non-string panic>".into() };
+                // the standard library's check of a library-level precondition of an `unsafe fn` (`get_unchecked`, ...) panics without
+                // unwinding: the process aborts and nobody will ever ask for LAST, so print it (the Miri slice runner looks for it)
+                if message.starts_with("unsafe precondition(s) violated") { eprintln!("panic at {file}:{line}: {message}"); }
                 LAST.with(|l| *l.borrow_mut() = Some(PanicInfo { file, line, message }));
             } else {
                 prev(info);
